@@ -20,6 +20,9 @@ import ast
 
 from ..srcmodel import AnalysisError, U, calls_in, walk_shallow, target_names
 from ..symexpr import SymEval, Atoms, Alg, Rat, const, sym
+from ..normalise import single_exit
+from ..engines.blockeval import BlockEval, T
+import copy
 
 CDP = 'mechanisms/cdp2adp.py'
 
@@ -28,53 +31,107 @@ def parse(s):
     return ast.parse(s, mode='eval').body
 
 
+class Replace(ast.NodeTransformer):
+    def __init__(self, fn):
+        self.fn = fn
+
+    def visit(self, node):
+        r = self.fn(node)
+        return r if r is not None else self.generic_visit(node)
+
+
+def strip_not(t, pol=True):
+    while isinstance(t, ast.UnaryOp) and isinstance(t.op, ast.Not):
+        t, pol = t.operand, not pol
+    return t, pol
+
+
+FLIP = {ast.Lt: ast.Gt, ast.Gt: ast.Lt, ast.LtE: ast.GtE, ast.GtE: ast.LtE, ast.Eq: ast.Eq, ast.NotEq: ast.NotEq}
+NEGOP = {ast.Lt: ast.GtE, ast.GtE: ast.Lt, ast.Gt: ast.LtE, ast.LtE: ast.Gt}
+
+
 class Search:
-    """structure of one bracket search: for ...: mid = f(lo, hi); if TEST: A = mid else: B = mid"""
+    """Value-level structure of one bracket search, read off the *expanded* function (engines/blockeval.py):
+    per pass over the loop body each bracket end X becomes `MID if TEST else X` (or the mirror image); locals, hoisted
+    temporaries, tuple/conditional assignment, guard clauses and single-exit style all denote the same terms."""
+
+    MID = '__mid__'
 
     def __init__(self, fi):
         self.fi = fi
-        loops = [s for s in fi.body if isinstance(s, (ast.For, ast.While))]
-        if len(loops) != 1:
+        stmts, _ = single_exit(copy.deepcopy(fi.body), '__ret__')
+        be = BlockEval(fi.qualname, loop_ok=lambda s: True)
+        be.run(stmts)
+        if len(be.loops_done) != 1:
             raise AnalysisError('%s: expected exactly one search loop' % fi.qualname)
-        self.loop = loops[0]
-        body = self.loop.body
-        mids = [s for s in body if isinstance(s, ast.Assign) and len(s.targets) == 1 and isinstance(s.targets[0], ast.Name)]
-        ifs = [s for s in body if isinstance(s, ast.If)]
-        if len(ifs) != 1 or not mids:
-            raise AnalysisError('%s: unrecognised search body' % fi.qualname)
-        self.branch = ifs[0]
-        self.test = ifs[0].test
-
-        def assigned(block):
-            out = []
-            for s in block:
-                if isinstance(s, ast.Assign) and len(s.targets) == 1 and isinstance(s.targets[0], ast.Name):
-                    out.append((s.targets[0].id, s.value, s))
-            return out
-        t, f = assigned(ifs[0].body), assigned(ifs[0].orelse)
-        if len(t) != 1 or len(f) != 1:
-            raise AnalysisError('%s: each branch of the search must move exactly one end of the bracket' % fi.qualname)
-        self.true_var, self.true_val, self.true_stmt = t[0]
-        self.false_var, self.false_val, self.false_stmt = f[0]
-        self.mid_var = U(self.true_val)
-        self.mid_stmt = None
-        self.defs_in_loop = {}
-        for s in mids:
-            self.defs_in_loop[s.targets[0].id] = s
-        if self.mid_var not in self.defs_in_loop or U(self.false_val) != self.mid_var:
-            raise AnalysisError('%s: both branches must assign the midpoint variable' % fi.qualname)
-        self.mid_stmt = self.defs_in_loop[self.mid_var]
-        # initial values of the two ends (last assignment before the loop)
-        self.inits = {}
-        for s in fi.body:
-            if s is self.loop:
-                break
-            if isinstance(s, ast.Assign) and len(s.targets) == 1 and isinstance(s.targets[0], ast.Name):
-                self.inits[s.targets[0].id] = s
+        self.loop, self.entry, body_env, self.loop_pc = be.loops_done[0]
+        ends = {}
+        for k, v in body_env.items():
+            if isinstance(v, ast.IfExp) and (T(v.body) == k) != (T(v.orelse) == k):
+                test, pol = strip_not(v.test)
+                moved_when_true = (T(v.orelse) == k) == pol
+                ends[k] = (test, moved_when_true, v.orelse if T(v.body) == k else v.body)
+        if len(ends) != 2:
+            raise AnalysisError('%s: unrecognised search body: bracket ends that move conditionally: %s' % (fi.qualname, sorted(ends)))
+        (a, (ta, pa, ma)), (b, (tb, pb, mb)) = sorted(ends.items())
+        if T(ta) != T(tb) or pa == pb:
+            raise AnalysisError('%s: the two bracket ends must move under complementary outcomes of one test' % fi.qualname)
+        if T(ma) != T(mb):
+            raise AnalysisError('%s: both branches must assign the same midpoint; got `%s` and `%s`' % (fi.qualname, U(ma), U(mb)))
+        self.true_var, self.false_var = (a, b) if pa else (b, a)
+        self.mid_expr = ma
+        mid_text = T(ma)
+        self.mid_vars = {k for k, v in body_env.items() if T(v) == mid_text}
+        self.mid_var = sorted(self.mid_vars)[0] if self.mid_vars else '<midpoint>'
+        self.test = self.with_mid(ta)
         for v in (self.true_var, self.false_var):
-            if v not in self.inits:
+            if v not in self.entry:
                 raise AnalysisError('%s: bracket end `%s` has no initial value before the loop' % (fi.qualname, v))
-        self.after = fi.body[fi.body.index(self.loop) + 1:]
+        self.inits = {v: self.entry[v] for v in (self.true_var, self.false_var)}
+        if '__ret__' not in be.env:
+            raise AnalysisError('%s: no result' % fi.qualname)
+        self.result = self.with_mid(be.env['__ret__'], after_loop=True)
+        # leaves of the conditional result
+        self.leaves = []
+
+        def leaves(e, path):
+            if isinstance(e, ast.IfExp):
+                t, pol = strip_not(e.test)
+                leaves(e.body, path + [(t, pol)])
+                leaves(e.orelse, path + [(t, not pol)])
+            else:
+                self.leaves.append((e, path))
+        leaves(self.result, [])
+        loopvars = set(body_env) | {self.MID}
+        self.final = [(e, p) for e, p in self.leaves if {n.id for n in ast.walk(e) if isinstance(n, ast.Name)} & loopvars]
+        self.early = [(e, p) for e, p in self.leaves if not ({n.id for n in ast.walk(e) if isinstance(n, ast.Name)} & loopvars)]
+        if len(self.final) != 1:
+            raise AnalysisError('%s: expected one result computed from the search (found %d)' % (fi.qualname, len(self.final)))
+
+    def with_mid(self, e, after_loop=False):
+        mid_text = T(self.mid_expr)
+
+        def fn(n):
+            if T(n) == mid_text and not isinstance(n, ast.Name):
+                return ast.Name(id=self.MID, ctx=ast.Load())
+            if after_loop and isinstance(n, ast.Name) and n.id in self.mid_vars:
+                return ast.Name(id=self.MID, ctx=ast.Load())
+            return None
+        return Replace(fn).visit(copy.deepcopy(e))
+
+    def where(self, var):
+        """a statement to anchor the report at: first assignment of `var` in the source"""
+        for n in ast.walk(self.fi.node):
+            if isinstance(n, ast.Assign) and any(var in target_names(t) for t in n.targets):
+                return n
+        return self.loop
+
+    def compare(self):
+        """the steering test as (left, op class, right) with polarity folded in"""
+        t = self.test
+        if not (isinstance(t, ast.Compare) and len(t.ops) == 1):
+            raise AnalysisError('%s: unrecognised search test `%s`' % (self.fi.qualname, U(t)))
+        return t.left, type(t.ops[0]), t.comparators[0]
 
 
 def run(ctx):
@@ -99,58 +156,56 @@ def check_cdp_delta(ctx, fi):
     ctx.analysed(fi)
     rho, eps = fi.params[0], fi.params[1]
     S = Search(fi)
-    alpha = S.mid_var
+    alpha = S.MID
     atoms = Atoms()
     ev = SymEval({}, atoms)
     # ---- which end is the lower one ----------------------------------------------------------
     a, b = S.true_var, S.false_var
-    ia, ib = ev.ev(S.inits[a].value), ev.ev(S.inits[b].value)
+    ia, ib = ev.ev(S.inits[a]), ev.ev(S.inits[b])
     if (ib - ia).is_rat() and (ib - ia).rat().sign_definite_nonneg() and not (ib - ia).rat().iszero():
         lo, hi = a, b
     elif (ia - ib).is_rat() and (ia - ib).rat().sign_definite_nonneg():
         lo, hi = b, a
     else:
-        ctx.ob('alpha-range', fi, S.inits[a], False, 'cannot order the initial bracket ends `%s`=%s and `%s`=%s' % (a, ia, b, ib))
+        ctx.ob('alpha-range', fi, S.where(a), False, 'cannot order the initial bracket ends `%s`=%s and `%s`=%s' % (a, ia, b, ib))
         return
-    lo_init, hi_init = ev.ev(S.inits[lo].value), ev.ev(S.inits[hi].value)
+    lo_init, hi_init = ev.ev(S.inits[lo]), ev.ev(S.inits[hi])
     ok = lo_init.is_rat() and lo_init.rat().isconst() and lo_init.rat().constval() > 1
-    ctx.ob('alpha-range', fi, S.inits[lo], ok, 'lower end of the order bracket must be a literal > 1 (alpha in (1, inf)); is %s' % lo_init)
+    ctx.ob('alpha-range', fi, S.where(lo), ok, 'lower end of the order bracket must be a literal > 1 (alpha in (1, inf)); is %s' % lo_init,
+           construct='lower end of the order bracket')
     # ---- midpoint ------------------------------------------------------------------------------
-    mid = ev.ev(S.mid_stmt.value)
+    mid = ev.ev(S.mid_expr)
     want = (sym(lo) + sym(hi)) / const(2)
-    ctx.ob('midpoint', fi, S.mid_stmt, mid.eq(want), 'search must bisect its own bracket: %s = (%s + %s)/2' % (alpha, lo, hi))
+    ctx.ob('midpoint', fi, S.where(S.mid_var), mid.eq(want), 'search must bisect its own bracket: %s = (%s + %s)/2; is `%s`' % (S.mid_var, lo, hi, U(S.mid_expr)),
+           construct='midpoint of the order search')
     # ---- the steering quantity and the final formula ---------------------------------------------------
-    t = S.test
-    if not (isinstance(t, ast.Compare) and len(t.ops) == 1 and isinstance(t.left, ast.Name)
-            and isinstance(t.comparators[0], ast.Constant) and t.comparators[0].value == 0):
-        raise AnalysisError('cdp_delta: unrecognised steering test `%s`' % U(t))
-    dvar = t.left.id
-    if dvar not in S.defs_in_loop:
-        raise AnalysisError('cdp_delta: steering quantity `%s` not computed in the loop' % dvar)
-    deriv_src = ev.ev(S.defs_in_loop[dvar].value).rat()
-    # final delta expression: the assignment after the loop feeding the return
-    delta_stmt = None
-    for s in S.after:
-        if isinstance(s, ast.Assign) and len(s.targets) == 1 and isinstance(s.targets[0], ast.Name):
-            delta_stmt = s
-    rets = [r for r in S.after if isinstance(r, ast.Return)]
-    if delta_stmt is None or len(rets) != 1:
-        raise AnalysisError('cdp_delta: final delta computation / return not found')
-    dname = delta_stmt.targets[0].id
-    delta_src = ev.ev(delta_stmt.value).rat()
+    l, op, r = S.compare()
+    if isinstance(l, ast.Constant) and l.value == 0 and op in FLIP:
+        l, op, r = r, FLIP[op], l
+    if not (isinstance(r, ast.Constant) and r.value == 0):
+        raise AnalysisError('cdp_delta: unrecognised steering test `%s`' % U(S.test))
+    deriv_src = ev.ev(l).rat()
+    final, _ = S.final[0]
+    ok = isinstance(final, ast.Call) and U(final.func) in ('min', 'builtins.min') and len(final.args) == 2 and \
+        any(U(x) in ('1', '1.0') for x in final.args)
+    ctx.ob('clamp', fi, S.loop, ok, 'cdp_delta must return min(delta, 1); returns `%s`' % U(final)[:160], construct='clamp of the result')
+    dexpr = final
+    if ok:
+        dexpr = [x for x in final.args if U(x) not in ('1', '1.0')][0]
+    delta_src = ev.ev(dexpr).rat()
     oracle = SymEval({'a': sym(alpha), 'rho': sym(rho), 'eps': sym(eps)}, atoms, strict=True).ev(
         parse('exp((a-1)*(a*rho-eps) + a*log(1-1/a)) / (a-1)')).rat()
-    ctx.ob('delta-formula', fi, delta_stmt, delta_src.eq(oracle),
-           'delta must equal exp((a-1)(a*rho-eps) + a*log(1-1/a))/(a-1) with a=%s; source normal form %r' % (alpha, delta_src))
+    ctx.ob('delta-formula', fi, S.loop, delta_src.eq(oracle),
+           'delta must equal exp((a-1)(a*rho-eps) + a*log(1-1/a))/(a-1) with a = the searched order; source normal form %r' % (delta_src,),
+           construct='delta at the searched order')
     dlog = delta_src.diff(alpha, atoms) / delta_src
-    ctx.ob('derivative', fi, S.defs_in_loop[dvar], dlog.eq(deriv_src),
-           'steering quantity must be d/d%s log(delta): expected %r, source %r' % (alpha, dlog, deriv_src))
+    ctx.ob('derivative', fi, S.loop, dlog.eq(deriv_src),
+           'steering quantity must be d/dalpha log(delta): expected %r, source %r' % (dlog, deriv_src), construct='steering quantity of the order search')
     # ---- orientation ---------------------------------------------------------------------------------
-    op = t.ops[0]
-    neg_branch_var = S.true_var if isinstance(op, (ast.Lt, ast.LtE)) else (S.false_var if isinstance(op, (ast.Gt, ast.GtE)) else None)
-    ctx.ob('orientation', fi, S.branch, neg_branch_var == lo,
+    neg_branch_var = S.true_var if op in (ast.Lt, ast.LtE) else (S.false_var if op in (ast.Gt, ast.GtE) else None)
+    ctx.ob('orientation', fi, S.loop, neg_branch_var == lo,
            'log delta is convex in alpha: a negative derivative means the optimum lies to the right, so the LOWER end `%s` must move; '
-           'the source moves `%s`' % (lo, neg_branch_var))
+           'the source moves `%s`' % (lo, neg_branch_var), construct='orientation of the order search')
     # ---- upper end is to the right of the optimum ------------------------------------------------------
     hi_rat = hi_init.rat() if hi_init.is_rat() else None
     proved, tried = False, []
@@ -166,20 +221,17 @@ def check_cdp_delta(ctx, fi):
         tried.append(('a >= 2 and log(1-1/a) >= -log 2', b2))
         if (hi_rat - Rat.const(2)).sign_definite_nonneg() and b2.sign_definite_nonneg():
             proved = True
-    ctx.ob('alpha-range', fi, S.inits[hi], proved,
+    ctx.ob('alpha-range', fi, S.where(hi), proved,
            'upper end `%s` = %s must be provably right of the optimal order (derivative(%s) >= 0 for all rho, eps > 0); '
            'lower bounds tried: %s' % (hi, hi_init, hi, '; '.join('%s -> %r' % x for x in tried)),
-           construct='upper end: ' + U(S.inits[hi]))
-    # ---- clamp and degenerate case ----------------------------------------------------------------------
-    rv = rets[0].value
-    ok = isinstance(rv, ast.Call) and U(rv.func) in ('min',) and {U(x) for x in rv.args} in ({dname, '1.0'}, {dname, '1'})
-    ctx.ob('clamp', fi, rets[0], ok, 'cdp_delta must return min(delta, 1)')
+           construct='upper end of the order bracket')
+    # ---- degenerate case ----------------------------------------------------------------------
     mod = fi.module
-    early_exits(ctx, fi, lambda t: is_exact_zero_test(t, rho, mod), rets, 'rho == 0')
-    zero = zero_case(fi, rho)
-    ctx.ob('sound-seed', fi, zero or fi.node, zero is not None,
+    early_exits(ctx, fi, S, lambda t: is_exact_zero_test(t, rho, mod), 'rho == 0')
+    zero = [1 for e, p in S.early if p and p[-1][1] and is_exact_zero_test(p[-1][0], rho, mod) and U(e) in ('0', '0.0')]
+    ctx.ob('sound-seed', fi, fi.node, bool(zero),
            'cdp_delta(0, eps) must be 0 (rho = 0 is the seed of the rho search): early return `if %s == 0: return 0`' % rho,
-           construct=U(zero) if zero is not None else 'no rho == 0 case in cdp_delta')
+           construct='rho == 0 case of cdp_delta')
 
 
 def is_exact_zero_test(t, name, mod):
@@ -196,31 +248,19 @@ def is_exact_zero_test(t, name, mod):
     return False
 
 
-def zero_case(fi, rho):
-    from ..normalise import Defs, expand
-    defs = Defs(fi.body)
-    for s in fi.body:
-        if isinstance(s, ast.If) and is_exact_zero_test(expand(s.test, defs), rho, fi.module) and \
-                len(s.body) == 1 and isinstance(s.body[0], ast.Return) and U(s.body[0].value) in ('0', '0.0'):
-            return s
-    return None
-
-
-def early_exits(ctx, fi, allowed_tests, final_returns, what):
-    """every return other than the final one must be one of the tabled degenerate cases (exact tests)"""
-    n = 0
-    for r in walk_shallow(fi.node):
-        if not isinstance(r, ast.Return) or any(r is f for f in final_returns):
-            continue
-        n += 1
-        par = getattr(r, '_parent', None)
-        from ..normalise import Defs, expand
-        ok = isinstance(par, ast.If) and r in par.body and len(par.body) == 1 and allowed_tests(expand(par.test, Defs(fi.body))) \
-            and r.value is not None and U(r.value) in ('0', '0.0')
-        ctx.ob('early-exit', fi, par if isinstance(par, ast.If) else r, ok,
-               '%s: an early return must be one of the degenerate cases with an exact test (%s) returning 0; found `%s` under `%s`'
-               % (fi.name, what, U(r), U(par.test) if isinstance(par, ast.If) else 'no test'))
-    return n
+def early_exits(ctx, fi, S, allowed_tests, what):
+    """every result other than the searched one must be one of the tabled degenerate cases (exact tests) and be 0"""
+    for e, path in S.early:
+        # the deciding condition of the leaf is the last one on its path; earlier ones only exclude other leaves
+        t, pol = path[-1] if path else (None, True)
+        ok = t is not None and pol and allowed_tests(t) and U(e) in ('0', '0.0')
+        if t is not None and not pol:
+            # `X if not (c) else 0`: the leaf is taken when c holds
+            ok = False
+        ctx.ob('early-exit', fi, fi.node, ok,
+               '%s: a result not computed by the search must be one of the degenerate cases with an exact test (%s) and be 0; found `%s` when `%s%s`'
+               % (fi.name, what, U(e), '' if pol else 'not ', U(t) if t is not None else 'always'),
+               construct='early result `%s` when `%s%s`' % (U(e), '' if pol else 'not ', U(t) if t is not None else 'always'))
 
 
 def check_inverse(ctx, fi, cd, searched, kind):
@@ -231,34 +271,32 @@ def check_inverse(ctx, fi, cd, searched, kind):
     ev = SymEval({}, atoms)
     other_param = fi.params[0]       # rho for cdp_eps, eps for cdp_rho
     delta_param = fi.params[1]
-    t = S.test
-    if not (isinstance(t, ast.Compare) and len(t.ops) == 1 and isinstance(t.left, ast.Call)
-            and U(t.left.func) == cd.name and len(t.left.args) == 2):
-        raise AnalysisError('%s: search test must compare %s(...) with delta; got `%s`' % (fi.qualname, cd.name, U(t)))
-    call = t.left
-    op = t.ops[0]
-    rhs = U(t.comparators[0])
-    args = [U(a) for a in call.args]
+    l, op, r = S.compare()
+    if not (isinstance(l, ast.Call) and U(l.func) == cd.name) and isinstance(r, ast.Call) and U(r.func) == cd.name and op in FLIP:
+        l, op, r = r, FLIP[op], l
+    if not (isinstance(l, ast.Call) and U(l.func) == cd.name and len(l.args) == 2):
+        raise AnalysisError('%s: search test must compare %s(...) with delta; got `%s`' % (fi.qualname, cd.name, U(S.test)))
+    call = l
+    rhs = U(r)
+    args = [U(a_) for a_ in call.args]
     want_args = [None, None]
-    want_args[searched] = S.mid_var
+    want_args[searched] = S.MID
     want_args[1 - searched] = other_param
-    ctx.ob('sound-side', fi, call, args == want_args and rhs == delta_param,
-           'the midpoint `%s` must be passed as the %s argument of %s, the other argument is the parameter `%s`, and the result '
-           'is compared with `%s`; got %s(%s) vs %s' % (S.mid_var, 'second (eps)' if searched else 'first (rho)', cd.name,
+    ctx.ob('sound-side', fi, S.loop, args == want_args and rhs == delta_param,
+           'the midpoint must be passed as the %s argument of %s, the other argument is the parameter `%s`, and the result '
+           'is compared with `%s`; got %s(%s) vs %s' % ('second (eps)' if searched else 'first (rho)', cd.name,
                                                           other_param, delta_param, cd.name, ', '.join(args), rhs),
-           construct=U(t))
-    if isinstance(op, (ast.LtE, ast.Lt)):
+           construct='search test of ' + fi.name)
+    if op in (ast.LtE, ast.Lt):
         sound, unsound = S.true_var, S.false_var
-    elif isinstance(op, (ast.GtE, ast.Gt)):
+    elif op in (ast.GtE, ast.Gt):
         sound, unsound = S.false_var, S.true_var
     else:
         raise AnalysisError('%s: unrecognised comparison in the search test' % fi.qualname)
-    rets = [r for r in S.after if isinstance(r, ast.Return)]
-    if len(rets) != 1:
-        raise AnalysisError('%s: expected one return after the search loop' % fi.qualname)
-    ctx.ob('sound-side', fi, rets[0], U(rets[0].value) == sound,
+    final, _ = S.final[0]
+    ctx.ob('sound-side', fi, S.loop, U(final) == sound,
            'the end assigned while `%s(.) <= %s` holds is `%s`; the function must return it (returns `%s`)'
-           % (cd.name, delta_param, sound, U(rets[0].value)))
+           % (cd.name, delta_param, sound, U(final)), construct='result of ' + fi.name)
     mod = fi.module
 
     def allowed(t):
@@ -266,30 +304,34 @@ def check_inverse(ctx, fi, cd, searched, kind):
         for x in parts:
             big_delta = isinstance(x, ast.Compare) and len(x.ops) == 1 and U(x.left) == delta_param and \
                 isinstance(x.ops[0], (ast.GtE, ast.Gt)) and U(x.comparators[0]) in ('1', '1.0')
+            big_delta = big_delta or (isinstance(x, ast.Compare) and len(x.ops) == 1 and U(x.comparators[0]) == delta_param and
+                                      isinstance(x.ops[0], (ast.LtE, ast.Lt)) and U(x.left) in ('1', '1.0'))
             zero_rho = kind == 'eps' and is_exact_zero_test(x, other_param, mod)
             if not (big_delta or zero_rho):
                 return False
         return True
-    early_exits(ctx, fi, allowed, rets, 'delta >= 1' + (' or rho == 0' if kind == 'eps' else ''))
-    mid = ev.ev(S.mid_stmt.value)
-    ctx.ob('midpoint', fi, S.mid_stmt, mid.eq((sym(S.true_var) + sym(S.false_var)) / const(2)),
-           'search must bisect its own bracket: %s = (%s + %s)/2' % (S.mid_var, S.true_var, S.false_var))
+    early_exits(ctx, fi, S, allowed, 'delta >= 1' + (' or rho == 0' if kind == 'eps' else ''))
+    mid = ev.ev(S.mid_expr)
+    ctx.ob('midpoint', fi, S.where(S.mid_var), mid.eq((sym(S.true_var) + sym(S.false_var)) / const(2)),
+           'search must bisect its own bracket: %s = (%s + %s)/2; is `%s`' % (S.mid_var, S.true_var, S.false_var, U(S.mid_expr)),
+           construct='midpoint of ' + fi.name)
     # direction: delta decreases in eps and increases in rho, so the sound end is the upper one for eps, the lower for rho
-    init_sound = ev.ev(S.inits[sound].value)
+    init_sound = ev.ev(S.inits[sound])
     if kind == 'rho':
         ok = init_sound.is_rat() and init_sound.rat().iszero()
-        ctx.ob('sound-seed', fi, S.inits[sound], ok,
-               'the sound end of the rho search must start at 0 (cdp_delta(0, eps) = 0 <= delta); starts at %s' % init_sound)
+        ctx.ob('sound-seed', fi, S.where(sound), ok,
+               'the sound end of the rho search must start at 0 (cdp_delta(0, eps) = 0 <= delta); starts at %s' % init_sound,
+               construct='seed of the sound end of ' + fi.name)
     else:
         want = SymEval({'rho': sym(other_param), 'delta': sym(delta_param)}, atoms, strict=True).ev(
             parse('rho + 2*sqrt(rho*log(1/delta))'))
-        ctx.ob('sound-seed', fi, S.inits[sound], init_sound.eq(want),
+        ctx.ob('sound-seed', fi, S.where(sound), init_sound.eq(want),
                'the sound end of the eps search must start at rho + 2 sqrt(rho log(1/delta)) (standard bound, for which '
-               'cdp_delta <= delta); starts at %s' % init_sound)
-        # and the early exits keep eps = 0 only where anything goes
+               'cdp_delta <= delta); starts at %s' % init_sound, construct='seed of the sound end of ' + fi.name)
     # the unsound end must start on the other side of the sound one
-    init_unsound = ev.ev(S.inits[unsound].value)
+    init_unsound = ev.ev(S.inits[unsound])
     d = (init_unsound - init_sound) if kind == 'rho' else (init_sound - init_unsound)
-    ok = all(c.sign_definite_nonneg() for c, r in d.terms)
-    ctx.ob('sound-side', fi, S.inits[unsound], ok,
-           'the other end `%s` must start on the %s side of the sound end' % (unsound, 'upper' if kind == 'rho' else 'lower'))
+    ok = all(c.sign_definite_nonneg() for c, r_ in d.terms)
+    ctx.ob('sound-side', fi, S.where(unsound), ok,
+           'the other end `%s` must start on the %s side of the sound end' % (unsound, 'upper' if kind == 'rho' else 'lower'),
+           construct='seed of the other end of ' + fi.name)
